@@ -13,7 +13,7 @@ decode = default_decode(SIG)
 TASK_REQS = 2500
 RULE = ('requests (value, radix): radices 2..=256 and out-of-range ones; structured values plus, for each radix, values with an interior '
         'all-zero chunk (x = hi*(r^p)^2 + lo, p = digits per division chunk of that digit size), interior zero digits, one-digit '
-        'values, r^k and r^k-1, and 2^k-1 / 2^k for every bit length k (every 8th k for types wider than 512 bits in the quick tier). The numeral is computed independently by the monitor; the std formatter is a second oracle for widths '
+        'values, r^k and r^k-1, and 2^k-1 / 2^k for every bit length k (a seed-dependent stride when the budget of the configuration is smaller than its bit width). The numeral is computed independently by the monitor; the std formatter is a second oracle for widths '
         '<= 128 bits (radix 2/8/10/16). Non-trivial: interior run of >= 2 zero digits, multi-chunk numerals, power-of-two radices '
         'that do not divide the digit width, negative values; distinct = distinct request lines')
 
@@ -47,7 +47,8 @@ def requests(cfg, rng, n, tier, part, nparts, st):
         for r in (0, 1, 257, 37, 2 ** 32 - 1):
             yield 'out', (gen.value(cfg, rng), r)
     # every bit length: 2^k - 1 and 2^k (+ a random value of that length); all k in the thorough tier, a seed-dependent 1/8 (wide types) in the quick tier
-    stride = 1 if (tier == 'thorough' or cfg.bits <= 512) else 8
+    # bounded by the budget of the configuration: every bit length when affordable, otherwise a seed-dependent stride
+    stride = max(1, -(-(cfg.bits + 1) // max(256, 2 * n * nparts)))
     ks = list(range(rng.randrange(stride), cfg.bits + 1, stride))
     lo, hi = (len(ks) * part // nparts, len(ks) * (part + 1) // nparts)
     for k in ks[lo:hi]:
